@@ -3,6 +3,7 @@
   Property theorems ONLY.
 -/
 import Kapture.Lemmas.C16
+import Kapture.Lemmas.C01Typed
 
 namespace Kapture.C16
 open Kapture Kapture.C20
@@ -67,5 +68,29 @@ theorem upgrade_moves_stay_in_folder (p : Params) (t : Tree) (pl : Plan) (h : pl
   obtain ⟨dir, ⟨ty, hty⟩, hdir⟩ := plan_folders_movesIn h hf
   obtain ⟨rel, h1, h2⟩ := hty m hm
   exact ⟨dir, ty, rel, h1, h2, hdir⟩
+
+/-- "A field that is not a valid value is reported as an error", for the numbers of the table files, on the typed model of the
+  readers (Model/C01Typed.lean, tied to the code by the C01 correspondence): a trajectory row whose timestamp is not an integer,
+  or one of whose pose fields is neither a float nor part of an all-empty group, is a ValueError -/
+theorem bad_trajectory_timestamp_is_an_error {F : Type} (c : C01.Codec F) (ts dev : Csv.Str) (pose : List Csv.Str)
+    (h : Csv.readInt ts = none) : ∃ e, C01.decodeTrajRow c (ts :: dev :: pose) = Except.error e := by
+  unfold C01.decodeTrajRow
+  dsimp only
+  rw [h]
+  exact ⟨_, rfl⟩
+
+/-- ... and a rig row one of whose pose fields is neither a float nor blank (the D30 fix: such a field used to make the rotation or
+  the translation of the rig silently disappear) -/
+theorem bad_rig_number_is_an_error {F : Type} (c : C01.Codec F) (qw qx qy qz tx ty tz bad : Csv.Str)
+    (hm : bad ∈ [qw, qx, qy, qz, tx, ty, tz]) (hbad : c.parse bad = none) (hnb : Csv.strip bad ≠ []) :
+    C01.rigPoseOfFields c [qw, qx, qy, qz, tx, ty, tz] = Except.error C01.DecodeErr.value :=
+  C01.rig_bad_number_is_an_error c qw qx qy qz tx ty tz bad hm hbad hnb
+
+/-- ... and a trajectory row one of whose pose fields is given and is not a float, whether or not the other fields of its group are
+  given (the D31 fix: a field next to an empty one was not looked at) -/
+theorem bad_trajectory_number_is_an_error {F : Type} (c : C01.Codec F) (qw qx qy qz tx ty tz bad : Csv.Str)
+    (hm : bad ∈ [qw, qx, qy, qz, tx, ty, tz]) (hbad : c.parse bad = none) (hnb : bad ≠ []) :
+    ∃ e, C01.trajPoseOfFields c [qw, qx, qy, qz, tx, ty, tz] = Except.error e :=
+  C01.traj_bad_number_is_an_error c qw qx qy qz tx ty tz bad hm hbad hnb
 
 end Kapture.C16
